@@ -14,9 +14,12 @@ other length, other data; add_tsig_timers feeds: time signed, fudge -- as the or
 calls with the provenance of each argument (the functions must be straight-line, otherwise the rule fails closed);
 (b) sibling agreement: for request / response / subsequent, sign_X and the closure of verify_X feed the same sequence
 (prior MAC length as u16, prior MAC, modified message, then variables -- or timers only for subsequent messages);
-(c) check_mac_size rejects sizes above the algorithm's output size or below max(10, ceil(output/2));
-(d) check_time accepts exactly time_signed - fudge <= now <= time_signed + fudge, with saturating arithmetic in u64 (no
-narrowing of the difference).
+(c) check_mac_size returns Ok exactly for max(10, ceil(output/2)) <= size <= output: the parameters' roles are read off
+its call in verification_core, the condition is proved at every Ok return and refuted at every Err return by the linear
+engine with case expansion (division by a constant, max/min, saturating and checked arithmetic, variables assigned on
+several arms), so the spelling of the comparisons is immaterial;
+(d) check_time returns Ok exactly for time_signed - fudge <= now <= time_signed + fudge at full width, decided the same
+way (a narrowing cast of the difference or of the fudge makes the proof fail).
 Not decided: HMAC itself (external crates), equality with an independent computation on concrete messages.
 """
 ASSUMPTIONS = ['hmac/sha1/sha2 crates trusted', 'RFC 8945 component order frozen in rules/c11.py']
